@@ -246,7 +246,58 @@ pub fn for_each_case(
     rep.tally_n("pattern_lists", nlists as u64);
 }
 
+/// Near-miss sweep: for patterns of every length class, a copy with exactly
+/// one byte altered (first bytes, middle, each of the last 9 bytes) is the only
+/// candidate in the haystack; nothing may be reported. This walks the verification
+/// routines (which compare in 2/4/8-byte chunks) position by position.
+fn near_miss_sweep(ctx: &Ctx, rep: &mut Report) {
+    let lens: Vec<usize> = (1..=40).chain([47, 48, 49, 63, 64, 65, 66, 67, 68, 69, 70, 71, 72, 127, 128, 129, 133, 134, 135]).collect();
+    let mut root = Rng::new(ctx.seed).fork(0xA155 + ctx.shard as u64);
+    for (k, &len) in lens.iter().enumerate() {
+        if !ctx.mine(k) {
+            continue;
+        }
+        let mut rng = root.fork(len as u64);
+        let reps = ctx.tier.pick(1, 2, 12);
+        for _ in 0..reps {
+            let alpha = b"abcdefgh";
+            let p = gen::rand_string(&mut rng, alpha, len);
+            // a second, shorter pattern keeps Rabin-Karp's hash window short
+            let q = gen::rand_string(&mut rng, b"XYZ", len.min(3).max(1));
+            let pats = vec![p.clone(), q];
+            let mut positions: Vec<usize> = (0..len.min(4)).collect();
+            positions.push(len / 2);
+            positions.extend(len.saturating_sub(9)..len);
+            positions.sort();
+            positions.dedup();
+            for &kind in &[Kind::LeftmostFirst, Kind::LeftmostLongest] {
+                for &v in &Variant::ALL {
+                    let s = match guard(|| build(&pats, kind, v)) {
+                        Ok(Some(s)) => s,
+                        _ => continue,
+                    };
+                    let imp = implementation(&s);
+                    let ml = pats.iter().map(|x| x.len()).min().unwrap_or(0).min(4);
+                    for &i in &positions {
+                        let mut near = p.clone();
+                        near[i] = if near[i] == b'z' { b'y' } else { b'z' };
+                        for pad in [0usize, 1, 17, 40] {
+                            let mut hay = vec![b'-'; pad];
+                            hay.extend_from_slice(&near);
+                            hay.extend(std::iter::repeat(b'-').take(40));
+                            let l = hay.len();
+                            check_one(rep, &pats, kind, v, &s, &imp, ml, &hay, (0, l));
+                            rep.tally("near_miss_haystacks");
+                        }
+                    }
+                }
+            }
+        }
+    }
+}
+
 pub fn run(ctx: &Ctx, rep: &mut Report) {
+    near_miss_sweep(ctx, rep);
     let n = ctx.tier.pick(4, 700, 100_000);
     for_each_case(ctx, rep, n, &mut |rep, pats, kind, v, s, imp, ml, hay, sp| {
         check_one(rep, pats, kind, v, s, imp, ml, hay, sp)
